@@ -122,6 +122,7 @@ MONEY_NAMES = {}        # names holding money in the history being generated -> 
 _NAME_ALT = '|'.join(re.escape(n) for n in sorted(NAMES, key=len, reverse=True))
 _RE_SET = re.compile(r'^(%s) = (\d+)$' % _NAME_ALT)
 _RE_DERIVE = re.compile(r'^(%s) = (%s) \+ (\d+)$' % (_NAME_ALT, _NAME_ALT))
+_RE_FAIL = re.compile(r'^(%s) = (3 hours \* 2 hours|5 km \+ 3 kg|10:30 \* 2)$' % _NAME_ALT)
 _RE_USE = re.compile(r'^(%s) \* 2 \+ (\d+)$' % _NAME_ALT)
 
 
@@ -144,6 +145,10 @@ def model_lines(env, text):
                 env.pop(m.group(1), None)
                 out.append(None)
             continue
+        m = _RE_FAIL.match(line)
+        if m:
+            out.append('fails')           # a re-definition that parses but cannot be calculated: the old binding stays
+            continue
         m = _RE_USE.match(line)
         if m and m.group(1) in env:
             out.append(env[m.group(1)] * 2 + float(m.group(2)))
@@ -156,6 +161,8 @@ def program_line(rng, bound, phrases=True):
     r = rng.random()
     if not phrases and r >= 0.92:
         r = 0.5
+    if bound and r < 0.04:
+        return '%s = %s' % (rng.choice(sorted(bound)), rng.choice(['3 hours * 2 hours', '5 km + 3 kg', '10:30 * 2'])), None
     if r < 0.45 or not bound:
         n = rng.choice(NAMES)
         if bound and rng.random() < 0.5:
@@ -379,6 +386,10 @@ def run_shard(ctx):
                             continue
                         slot_ = r['lines'][k_]
                         res.count('session_lines_judged_against_the_model')
+                        if want_ == 'fails':
+                            if slot_ is not None and 'err' not in slot_:
+                                res.count('session_redefinitions_expected_to_fail_that_evaluated')
+                            continue
                         if not (slot_ is not None and slot_.get('v', {}).get('k') == 'number' and mon.fval(slot_) == want_):
                             problem = ('session:model-value', 'line %d %r of the %d. text should evaluate to %r (bindings made by earlier texts and lines of this session), got %s'
                                        % (k_, parts[k_], kth, want_, mon.describe(slot_)))
